@@ -114,3 +114,53 @@ func guardEstablishedBefore(p *core.Prog, ds *core.Describer, fn *ssa.Function, 
 	}
 	return false, lastW, ""
 }
+
+// guardOf infers, by majority over every access in the program, which mutex field of the owner struct
+// protects the given field (so that a renamed mutex is still recognised by its role). "" if no access
+// holds a mutex of the owner.
+var guardCache = map[core.FieldID]string{}
+
+func guardOf(p *core.Prog, la *core.LockAnalysis, field core.FieldID) string {
+	if g, ok := guardCache[field]; ok {
+		return g
+	}
+	count := map[string]int{}
+	for _, fn := range p.SrcFuncs() {
+		var held map[ssa.Instruction]core.LockSet
+		for _, a := range core.FieldAccesses(fn) {
+			if a.Field != field {
+				continue
+			}
+			if held == nil {
+				held = la.HeldAt(fn)
+			}
+			for l := range held[a.Instr] {
+				if l.Field.Owner == field.Owner {
+					count[l.Field.Name]++
+				}
+			}
+			for l := range la.EntryHeld(fn) {
+				if l.Field.Owner == field.Owner {
+					count[l.Field.Name]++
+				}
+			}
+		}
+	}
+	best, bn := "", -1
+	for n, c := range count {
+		if c > bn || (c == bn && n < best) {
+			best, bn = n, c
+		}
+	}
+	guardCache[field] = best
+	return best
+}
+
+// heldGuard reports whether the inferred guard of field is held (in write mode if write) in ls.
+func heldGuard(p *core.Prog, la *core.LockAnalysis, ls core.LockSet, field core.FieldID, write bool) bool {
+	g := guardOf(p, la, field)
+	if g == "" {
+		return false
+	}
+	return ls.HasField(core.FieldID{Owner: field.Owner, Name: g}, write)
+}
